@@ -405,6 +405,8 @@ pub struct MemSource {
 	pub log: Option<Arc<Mutex<Vec<Req>>>>,
 	/// use the trait's default stream implementation (lookup per coordinate) instead of the map walk
 	pub default_stream: bool,
+	/// > 0: lookups and streams go Pending (yield to the scheduler) like a reader doing real I/O
+	pub yields: u32,
 }
 
 impl std::fmt::Debug for MemSource {
@@ -427,6 +429,7 @@ impl MemSource {
 			name: format!("mem:{}", ts.shape),
 			log: None,
 			default_stream: false,
+			yields: 0,
 		}
 	}
 	pub fn recording(mut self) -> (MemSource, Arc<Mutex<Vec<Req>>>) {
@@ -474,6 +477,9 @@ impl TilesReaderTrait for MemSource {
 		if let Some(l) = &self.log {
 			l.lock().unwrap().push(Req::Tile(key_of(coord)));
 		}
+		for _ in 0..self.yields {
+			tokio::task::yield_now().await;
+		}
 		Ok(self.tiles.get(&key_of(coord)).cloned())
 	}
 	async fn get_bbox_tile_stream(&self, bbox: TileBBox) -> TileStream {
@@ -487,6 +493,17 @@ impl TilesReaderTrait for MemSource {
 				let t = tiles.get(&key_of(&c)).cloned();
 				async move { t.map(|b| (c, b)) }
 			});
+		}
+		if self.yields > 0 {
+			use futures::StreamExt;
+			let n = self.yields;
+			let s = futures::stream::iter(self.tiles_in(&bbox)).then(move |it| async move {
+				for _ in 0..n {
+					tokio::task::yield_now().await;
+				}
+				it
+			});
+			return TileStream::from_stream(Box::pin(s));
 		}
 		TileStream::from_vec(self.tiles_in(&bbox))
 	}
